@@ -211,6 +211,19 @@ def evaluate(fn, data):
 
 
 # ----------------------------------------------------------------------- free names
+def _walrus_targets(body):
+    "names bound by := in a lambda body (not inside nested lambdas): local to that lambda"
+    out, todo = [], [body]
+    while todo:
+        n = todo.pop()
+        if isinstance(n, ast.Lambda):
+            continue
+        if isinstance(n, ast.NamedExpr) and isinstance(n.target, ast.Name):
+            out.append(n.target.id)
+        todo.extend(ast.iter_child_nodes(n))
+    return out
+
+
 def free_names(node, bound=frozenset()):
     """Free variable names of an expression AST (lambda parameters and comprehension targets
     bind).  Independent scope resolver used by C02/C05/C18."""
@@ -229,6 +242,7 @@ def free_names(node, bound=frozenset()):
                 names.append(a.vararg.arg)
             if a.kwarg:
                 names.append(a.kwarg.arg)
+            names += _walrus_targets(n.body)
             walk(n.body, bound | set(names))
         elif isinstance(n, (ast.ListComp, ast.GeneratorExp, ast.SetComp, ast.DictComp)):
             b = set(bound)
